@@ -13,6 +13,12 @@ def cases(rng, tier):
     for _ in range(n):
         yield {'mode': 'ow', 'fe': rng.choice(['v2', 'v2', 'v1']), 'before': rng.randint(0, 2),
                'during': rng.randint(1, 2), 'after': 0, 'open_delay_ms': rng.choice([1, 10, 250])}
+    # routes declared while the first connection is up, and between the two connections: "declared before connecting"
+    # as far as the second connection is concerned
+    for _ in range(n):
+        yield {'mode': 'ow', 'fe': rng.choice(['v2', 'v1']), 'before': rng.randint(0, 2), 'during': rng.randint(0, 1),
+               'after': rng.randint(0, 2), 'between': rng.randint(0, 2), 'open_delay_ms': rng.choice([1, 10]),
+               'opts': rng.random() < 0.5}
 
 
 def run(case):
@@ -62,10 +68,17 @@ def run(case):
             a = appv1.NDNApp(face=face, keychain=sec.KeychainDigest())
         names = []
 
+        async def _pass(*x, **k):
+            from ndn import types
+            return types.ValidResult.PASS
+
         def declare(tag):
             nm = f'/ow/{tag}{len(names)}'
             names.append(nm)
-            a.route(nm)(lambda *x, **k: None)
+            if case.get('opts'):
+                a.route(nm, validator=_pass)(lambda *x, **k: None)
+            else:
+                a.route(nm)(lambda *x, **k: None)
         per_conn = []
         for _ in range(case['before']):
             declare('b')
@@ -116,6 +129,9 @@ def run(case):
             if not t.done():
                 t.cancel()
                 loop.settle()
+            if conn == 0:
+                for _ in range(case.get('between', 0)):
+                    declare('m')                          # no connection at all at this moment
         return {'mode': 'ow', 'names': names, 'registered': per_conn, 'loop_errors': [list(e) for e in loop.errors]}
     finally:
         for o, n, v in olds:
@@ -127,9 +143,11 @@ def oracle(case, impl):
     for ci, regs in enumerate(impl['registered']):
         for nm in impl['names']:
             n = regs.count(nm)
+            if ci == 0 and ('/a' in nm or '/m' in nm):
+                continue        # not declared before connecting as far as the first connection is concerned
             if n != 1:
                 when = 'before main_loop' if '/b' in nm else 'while the connection was being established' if '/d' in nm \
-                    else 'after the connection was up'
+                    else 'while the previous connection was up' if '/a' in nm else 'between the two connections'
                 return (f'connection {ci}: the route declared {when} was '
                         f'{"never registered" if n == 0 else "registered %d times" % n} on this connection')
     return None
